@@ -1,12 +1,12 @@
 package main
 
 import (
-	"math"
 	"bytes"
 	"errors"
 	"fmt"
 	"io"
 	gofs "io/fs"
+	"math"
 	"sort"
 	"strings"
 	"sync"
@@ -35,7 +35,7 @@ type srcFS struct {
 	pause     func(name string, readIdx int64) // called before every Read
 	copying   int64
 	maxCopies int64
-	failOpen  string // the next Open of this name fails (once)
+	failOpen  string            // the next Open of this name fails (once)
 	onFail    func(name string) // called when a Read failure is injected
 	noSeek    bool              // handles expose Read, Stat, ReadDir and Close only (a source that cannot seek)
 	failDir   string            // listing this directory of the source fails
@@ -44,10 +44,10 @@ type srcFS struct {
 // plainFile hides every optional method of the source handle but ReadDir
 type plainFile struct{ f *srcFile }
 
-func (p plainFile) Read(b []byte) (int, error)                    { return p.f.Read(b) }
-func (p plainFile) Stat() (hackpadfs.FileInfo, error)             { return p.f.Stat() }
-func (p plainFile) Close() error                                  { return p.f.Close() }
-func (p plainFile) ReadDir(n int) ([]hackpadfs.DirEntry, error)   { return p.f.ReadDir(n) }
+func (p plainFile) Read(b []byte) (int, error)                  { return p.f.Read(b) }
+func (p plainFile) Stat() (hackpadfs.FileInfo, error)           { return p.f.Stat() }
+func (p plainFile) Close() error                                { return p.f.Close() }
+func (p plainFile) ReadDir(n int) ([]hackpadfs.DirEntry, error) { return p.f.ReadDir(n) }
 
 func newSrcFS(fs hackpadfs.FS) *srcFS {
 	return &srcFS{fs: fs, opens: map[string]*int64{}, reads: map[string]*int64{}, failRead: -1}
@@ -536,6 +536,7 @@ var c10Paged = map[hackpadfs.File]bool{}
 
 func runC10(r *Rng, n int, replay string) {
 	defer runC10SrcDirFail(900000)
+	defer runC10DirSeq(r, n/4+20, 910000)
 	for id := 0; id < n; id++ {
 		es := genTree(r)
 		pol := retainPolicies[r.Intn(len(retainPolicies))]
@@ -1297,5 +1298,97 @@ func runC10SrcDirFail(idBase int) {
 				emit(c)
 			}
 		}
+	}
+}
+
+// runC10DirSeq: random call sequences on one cache directory handle, the source unable to list the directory at some
+// of the calls; what each call returned is replayed through the model of cache/dir.go (Cache/CacheDir.v, C10dir_check)
+// and judged directly: a failing source means a failing call, and the pages delivered are consecutive pieces of the listing.
+func runC10DirSeq(r *Rng, n, idBase int) {
+	id := idBase
+	for k := 0; k < n; k++ {
+		nent := r.Range(0, 6)
+		es := []srcEntry{{path: "d", isDir: true}}
+		var names []string
+		for i := 0; i < nent; i++ {
+			nm := string(rune('a' + i))
+			names = append(names, nm)
+			if r.Intn(3) == 0 {
+				es = append(es, srcEntry{path: "d/" + nm, isDir: true})
+			} else {
+				es = append(es, srcEntry{path: "d/" + nm, data: []byte(nm), perm: 0o644})
+			}
+		}
+		minimal := r.Intn(2) == 0
+		src := newSrcFS(buildTree(es))
+		_, store := newStore(minimal)
+		cfs, err := cache.NewReadOnlyFS(src, store, cache.ReadOnlyOptions{})
+		if err != nil {
+			panic(err)
+		}
+		h, err := cfs.Open("d")
+		if err != nil {
+			panic(err)
+		}
+		c := &Case{ID: id, Kind: "dir-sequence"}
+		id++
+		c.Cells = []string{fmt.Sprintf("dir-sequence/entries=%d", nent)}
+		c.Text = []string{fmt.Sprintf("source d/ with entries %v; one cache handle of d", names)}
+		ncalls := r.Range(1, 7)
+		var callsC, obsC []string
+		var delivered []string
+		for j := 0; j < ncalls; j++ {
+			cnt := []int{-1, 0, 1, 1, 2, 3, 100}[r.Intn(7)]
+			avail := r.Intn(4) != 0
+			if avail {
+				src.failDir = ""
+			} else {
+				src.failDir = "d"
+			}
+			ents, rerr := hackpadfs.ReadDirFile(h, cnt)
+			var got []string
+			for _, e := range ents {
+				got = append(got, e.Name())
+			}
+			callsC = append(callsC, cPair(cBool(avail), cZ(int64(cnt))))
+			var o string
+			switch {
+			case rerr == nil:
+				items := make([]string, len(got))
+				for i, g := range got {
+					items[i] = cStr(g)
+				}
+				o = "DEntries " + cList(items)
+				delivered = append(delivered, got...)
+			case rerr == io.EOF:
+				o = "DEOF"
+			default:
+				o = "DErr"
+			}
+			obsC = append(obsC, o)
+			c.Text = append(c.Text, fmt.Sprintf("source lists d: %v; ReadDir(%d) -> %v, %v", avail, cnt, got, rerr))
+			if !avail && (rerr == nil || rerr == io.EOF) {
+				c.fail(fmt.Sprintf("call %d: the source cannot list d but the cache's ReadDir(%d) returned %v, %v", j+1, cnt, got, rerr), "dir-sequence:source-failure-hidden")
+			}
+			if avail && rerr != nil && rerr != io.EOF {
+				c.fail(fmt.Sprintf("call %d: the source lists d but the cache's ReadDir(%d) failed: %v", j+1, cnt, rerr), "dir-sequence:spurious-error")
+			}
+		}
+		// the pages are consecutive pieces of the source's listing
+		for i, g := range delivered {
+			if i >= len(names) || names[i] != g {
+				c.fail(fmt.Sprintf("the pages delivered %v, the source's listing is %v", delivered, names), "dir-sequence:pages")
+				break
+			}
+		}
+		src.failDir = ""
+		_ = h.Close()
+		items := make([]string, len(names))
+		for i, g := range names {
+			items[i] = cStr(g)
+		}
+		c.Coq = "(" + cList(items) + ", " + cList(callsC) + ", " + cList(obsC) + ")"
+		c.CType, c.Check = "C10dir_case", "C10dir_check"
+		emit(c)
 	}
 }
